@@ -67,7 +67,7 @@ func name(i int) string { return fmt.Sprintf("o%d", i+1) }
 func manifest(kind, nm, st string) string {
 	switch kind {
 	case "Job":
-		head := fmt.Sprintf("apiVersion: batch/v1\nkind: Job\nmetadata:\n  name: %s\n  namespace: %s\n  generation: 1\nspec:\n  completions: 2\n  parallelism: 1\n", nm, ns)
+		head := fmt.Sprintf("apiVersion: batch/v1\nkind: Job\nmetadata:\n  name: %s\n  namespace: %s\n  generation: 1\nspec:\n  completions: 2\n  parallelism: 1\n  backoffLimit: 0\n  template:\n    spec:\n      restartPolicy: Never\n      containers:\n      - name: c\n        image: busybox\n", nm, ns)
 		switch st {
 		case "new":
 			return head
@@ -83,7 +83,7 @@ func manifest(kind, nm, st string) string {
 			return head + "status:\n  startTime: \"2026-01-01T00:00:00Z\"\n  failed: 1\n  conditions:\n  - type: Failed\n    status: \"True\"\n    reason: BackoffLimitExceeded\n"
 		}
 	case "Pod":
-		head := fmt.Sprintf("apiVersion: v1\nkind: Pod\nmetadata:\n  name: %s\n  namespace: %s\n", nm, ns)
+		head := fmt.Sprintf("apiVersion: v1\nkind: Pod\nmetadata:\n  name: %s\n  namespace: %s\nspec:\n  containers:\n  - name: c\n    image: busybox\n", nm, ns)
 		switch st {
 		case "new":
 			return head
@@ -149,6 +149,9 @@ func RunCase(c CaseJ, step, okTimeout, errGrace time.Duration) (o Obs) {
 			o.Harness = fmt.Sprint("panic: ", r)
 		}
 	}()
+	legacy := c.Strategy == "legacy"
+	sim := simcluster.New()
+	sim.Watch = true
 	mapper := watchMapper()
 	fc := dynamicfake.NewSimpleDynamicClient(scheme.Scheme)
 	// what helm holds while it waits: the objects as it built them from the manifest (no status)
@@ -160,7 +163,7 @@ func RunCase(c CaseJ, step, okTimeout, errGrace time.Duration) (o Obs) {
 		}
 		all.WriteString("---\n" + manifest(ob.Kind, name(i), first))
 	}
-	kc := &kube.Client{Factory: &simcluster.Factory{RT: simcluster.New().Transport(-1), Namespace: ns}, Namespace: ns}
+	kc := &kube.Client{Factory: &simcluster.Factory{RT: sim.Transport(-1), Namespace: ns}, Namespace: ns}
 	list, err := kc.Build(&all, false)
 	if err != nil {
 		o.Harness = "build: " + err.Error()
@@ -181,6 +184,10 @@ func RunCase(c CaseJ, step, okTimeout, errGrace time.Duration) (o Obs) {
 				if err != nil {
 					return err
 				}
+				if legacy {
+					sim.Remove(simcluster.Key{Group: gvr.Group, Version: gvr.Version, Resource: gvr.Resource, Namespace: ns, Name: name(i)})
+					continue
+				}
 				if err := fc.Tracker().Delete(gvr, ns, name(i)); err != nil {
 					return err
 				}
@@ -193,6 +200,11 @@ func RunCase(c CaseJ, step, okTimeout, errGrace time.Duration) (o Obs) {
 			gvr, err := gvrOf(mapper, u)
 			if err != nil {
 				return err
+			}
+			if legacy {
+				// (the legacy waiters read through the real typed / REST clients: the objects live in the simulated API server)
+				sim.Put(simcluster.Key{Group: gvr.Group, Version: gvr.Version, Resource: gvr.Resource, Namespace: ns, Name: name(i)}, u.Object)
+				continue
 			}
 			if k == 1 {
 				err = fc.Tracker().Create(gvr, u, ns)
@@ -213,7 +225,17 @@ func RunCase(c CaseJ, step, okTimeout, errGrace time.Duration) (o Obs) {
 	if c.Strategy == "hookonly" {
 		strat = kube.HookOnlyStrategy
 	}
-	w := kube.NewStatusWaiterForVerif(strat, fc, mapper)
+	var w kube.Waiter
+	if legacy {
+		lw, err := kc.GetWaiter(kube.LegacyStrategy)
+		if err != nil {
+			o.Harness = "legacy waiter: " + err.Error()
+			return
+		}
+		w = lw
+	} else {
+		w = kube.NewStatusWaiterForVerif(strat, fc, mapper)
+	}
 	timeout := okTimeout
 	if !c.Ok {
 		timeout = time.Duration(c.Ticks-1)*step + errGrace
